@@ -491,6 +491,16 @@ func (w *effWalker) call(c *ast.CallExpr) pp {
 					return freshPP()
 				}
 				r := w.expr(c.Args[0])
+				// append writes into the spare capacity of its first argument's backing array when there
+				// is room: an effect on that object (harmless for fresh/local slices, a shared write if
+				// the slice is reachable from the receiver or an argument)
+				if root, ok := rootIdent(c.Args[0]); ok {
+					if p, bound := w.vars[root]; bound && p.self.kind == pvShared {
+						t := p.self
+						t.path = srcOf(c.Args[0])
+						w.add(fmt.Sprintf("EWrite (%s) %s", t.coq(), coqStr("append may write the spare capacity of "+srcOf(c.Args[0]))))
+					}
+				}
 				for _, a := range c.Args[1:] {
 					r.elem = joinPv(r.elem, w.expr(a).full())
 				}
@@ -897,4 +907,19 @@ func emitEffectSkel(repo, outDir string, protos map[string]cProto) (map[string]b
 	fmt.Fprintf(&sb, "(* receiver types considered for calls through interface values *)\nDefinition effect_dispatch_types : list string :=\n  %s.\n", strList(effectDispatchTypes))
 	writeIfChanged(filepath.Join(outDir, "EffectSkel.v"), sb.String())
 	return called, nil
+}
+
+// rootIdent: x, x.f, x.f.g (selector chains only) -> x
+func rootIdent(e ast.Expr) (string, bool) {
+	e = stripParens(e)
+	for {
+		switch x := e.(type) {
+		case *ast.Ident:
+			return x.Name, true
+		case *ast.SelectorExpr:
+			e = stripParens(x.X)
+		default:
+			return "", false
+		}
+	}
 }
